@@ -598,6 +598,8 @@ class RunningShow:
 
     def resume(self):
         """Resume paused show."""
+        if self._stopped:
+            return
         self.machine.show_controller.debug_log("Resuming show %s", self.show.name)
         # the show might not be paused. do not leave a second timer chain behind which stop() cannot cancel
         self._remove_delay_handler()
@@ -618,6 +620,8 @@ class RunningShow:
 
     def advance(self, steps=1, show_step=None):
         """Manually advance this show to the next step."""
+        if self._stopped:
+            return
         self._remove_delay_handler()
         self.next_step_time = self.machine.clock.get_time()
 
@@ -633,6 +637,8 @@ class RunningShow:
 
     def step_back(self, steps=1):
         """Manually step back this show to a previous step."""
+        if self._stopped:
+            return
         self._remove_delay_handler()
         self.next_step_time = self.machine.clock.get_time()
 
